@@ -18,6 +18,28 @@ GAPS = {
 }
 
 
+COMMON_ASSUME = [
+    "Lean 4.33 kernel; axioms of every property theorem ⊆ {propext, Classical.choice, Quot.sound} (audited on this run)",
+    "the hand-written models (M2, M3, M4a, M4b, M5) represent the code: validated on this run by the correspondence / trace acceptance counted in coverage.runs, and by the pinned structural facts (Expect/*.lean) compared with the facts gofacts extracted from the working tree",
+    "go2lean, gofacts, rewrite + vshim (cooperative scheduler, virtual clock) are trusted tools",
+]
+ATOMIC_MAP = "premise of the cache-level concurrent model M5: the underlying Map/MapOf behaves atomically (that is C03/C04; the substitution of a linearizable object for an atomic one is not mechanised)"
+ASSUME = {
+    "C01": [ATOMIC_MAP, "time as unbounded Int: instants beyond int64 nanoseconds are outside the model (probed by corpus/seqcache/ttl_overflow_live.txt)"],
+    "C02": [ATOMIC_MAP], "C05": [ATOMIC_MAP, "0 < minLen (every table has at least one bucket)"], "C06": [ATOMIC_MAP], "C07": [ATOMIC_MAP],
+    "C08": [ATOMIC_MAP, "0 < minLen; every table has at least one counter stripe"],
+    "C09": [ATOMIC_MAP, "time as unbounded Int: the code departs from the property beyond int64 nanoseconds (known finding F6)"],
+    "C03": ["0 < minLen (every table has at least one bucket)", "M4a reads a bucket chain in one step; the multi-load read is M4b's business (composition not mechanised)"],
+    "C04": ["0 < minLen (every table has at least one bucket)", "M4a reads a bucket chain in one step; the multi-load read is M4b's business (composition not mechanised)"],
+    "C10": ["H(K): the Go runtime hasher is a function of the ==-class of the key and does not panic (checked by the key-type catalogue, not proved)"],
+    "C11": ["presize hints whose nextPowOf2 argument exceeds 2^31 are outside the theorem"],
+    "C12": [ATOMIC_MAP], "C13": ["fair scheduling of runnable goroutines (a blocked-forever claim is about the model's enabledness)"],
+    "C14": ["Go memory model (DRF-SC), sync/atomic and the compiler are trusted; the race detector's silence is observed, not proved"],
+    "C15": ["the Go runtime runs finalizers of unreachable objects and fires tickers (observed by the janitor harness, not proved)"],
+    "C16": ["0 < number of counter stripes"],
+}
+
+
 E = lambda *names: ["CacheVerif.Expect." + n for n in names]
 EXPECT = {
     "C01": E("Cache"), "C02": E("Cache"), "C06": E("Cache"), "C09": E("Cache", "Ctor"), "C12": E("Cache", "Ctor"),
@@ -43,6 +65,7 @@ def SEEDS(run, n):
 
 def common(run, modules):
     """steps 1-3: tools, regeneration, proofs, audit.  Returns True when the driver is usable."""
+    run.assumptions = COMMON_ASSUME + ASSUME.get(run.pid, [])
     R.build_tools(run)
     R.regenerate(run)
     # pinned structural facts (skeletons extracted by gofacts = the ones the hand-written models were written from)
